@@ -89,7 +89,7 @@ class Skip:
 
 
 ORACLES = {}
-AUTO_MEMORY_KINDS = ('f', 'lead-permuted', 'strided', 'reversed')
+AUTO_MEMORY_KINDS = ('f', 'lead-permuted', 'last2-transposed', 'strided', 'reversed')
 
 
 def oracle(fn):
